@@ -71,6 +71,7 @@ World::StepResult World::step(ns_t horizon) {
         std::size_t n = ioc.poll_one();
         if (n) {
             ++handlers_run;
+            if (live_trace) fputs("        [handler ran]\n", stderr);
             out_of_work = false;
             r = StepResult::handler;
         } else {
